@@ -42,7 +42,7 @@ ASSUMPTIONS = [
     'symbol tables are generated without STT_GNU_IFUNC / STB_GNU_UNIQUE and notes without annobin/stapsdt owners: the clone\'s '
     'description tables have no entries for them',
 ]
-KINDS = {'corpus': (288, 1011, 0), 'compiled': (20, 44, 1), 'descr': (60, 60, 2), 'dwdescr': (40, 40, 1), 'generated': (220, 2200, 4)}
+KINDS = {'corpus': (288, 1011, 0), 'compiled': (20, 44, 1), 'descr': (60, 60, 2), 'dwdescr': (40, 40, 1), 'generated': (240, 2400, 4)}
 FLOOR = {'quick': 150, 'thorough': 600}
 CASE_TIMEOUT = 1200
 OPTIONS = ['-e', '-d', '-s', '-n', '-r', '-x.text', '-p.shstrtab', '-V', '--debug-dump=info', '--debug-dump=decodedline',
@@ -1062,7 +1062,14 @@ def gen_families():
         tabs = {m: sorted({v for v in getattr(E, spec[3]).values() if isinstance(v, int) and (v < 256 or spec[0] == 64)})
                 for m, spec in dynobj.RELOC_MACH.items()}
         return dynobj.gen_reloc_file(rng, tabs)
+    import elftools.elf.descriptions as D
+
+    def headers(rng):
+        machines = sorted({E.ENUM_E_MACHINE[k] for k in D._DESCR_E_MACHINE if isinstance(E.ENUM_E_MACHINE.get(k), int)})
+        osabis = sorted({E.ENUM_EI_OSABI[k] for k in D._DESCR_EI_OSABI if isinstance(E.ENUM_EI_OSABI.get(k), int)})
+        return dynobj.gen_header_file(rng, machines, [o for o in osabis if o <= 18])      # the generic OS ABIs; the table itself is a descr table
     return [('versions', ['-V', '-s', '-d', '-e'], dynobj.gen_versions), ('notes', ['-n'], dynobj.gen_notes_file),
+            ('headers', ['-h', '-e'], headers),
             ('symtab', ['-s', '-e'], dynobj.gen_symtab_file), ('relocs', ['-r'], relocs),
             ('layout', ['-e', '-l', '-S', '-h'], dynobj.gen_layout_file),
             ('sections', ['-S', '-e', '-s', '-r'], dynobj.gen_sections_file),
@@ -1100,7 +1107,7 @@ def run_generated(idx, rng, sh):
                 if res == 'diff' and name == 'names' and desc.get('dup_' + option.split('=')[-1]) and fid in sh.quirks:
                     sh.known_finding(fid)       # the same name occurs twice in the table: the open finding explains the difference
                     continue
-                if res == 'diff' and any(ph in first for ph in ('unrecognized:', '<unknown>:', '<processor specific>', '<os specific>')):
+                if res == 'diff' and any(ph in first for ph in ('unrecognized:', '<unknown>:', '<unknown:', '<processor specific>', '<os specific>')):
                     sh.count('pairs_unjudged_gnu_placeholder')
                     sh.skip('GNU readelf 2.40 has no name for a code in this file')
                     continue
